@@ -5,6 +5,7 @@ From GV Require Import Base.Result Gen.TokenTypes Gen.Defs Model.Parser Model.Bu
   Spec.TokenAccount
   Proofs.C03.Bounded Proofs.C03.Bounded4 Proofs.C04.Bounded Proofs.C04.Shape Proofs.C04.Validated Proofs.C04.Tokens Proofs.C04.TokensTree.
 From GV Require Import Spec.RefTable Spec.Pratt Spec.Chains Proofs.C04.InOrder.
+From GV Require Import Gen.Instr Model.Compile Proofs.C05.Known Proofs.C04.Attribution Proofs.C04.AttributionNodes.
 Import ListNotations.
 
 (* UNBOUNDED, for every token list: whenever parse accepts, the node links it returns
@@ -144,6 +145,145 @@ Example C04_in_order_ex :
   match parse toks with
   | Ok (root, ns) => inorder ns root = Some (seq 0 17) /\
                      real_toks (labels ns) = [0; 1; 3; 5; 7; 8; 9; 10; 11; 12; 13; 15; 18; 20; 21]
+  | _ => False
+  end.
+Proof. vm_compute. repeat split; reflexivity. Qed.
+
+(* ================= the ATTRIBUTION clause, for every program (no bound) ================= *)
+(* UNBOUNDED, on the tree compiler (Model/Compile.v), for EVERY proper tree, every initial
+   state of the data object and every literal oracle: if compile succeeds, every node of the
+   tree that is owed an instruction is named by the metadata record of at least one emitted
+   instruction.  [owed None t] lists the nodes of [t] that are not purely structural: all but
+   a Group, an ElseJump, and a List / CommaList whose parent in the tree is a list of the same
+   definition (flattened into it).  Two exclusions, both decidable on the tree and both
+   necessary (refuted below), neither produced by the parser on any input tried:
+   class C05-K2 (a conditional directly as left operand of && / ||: its arm is registered and
+   never emitted) and [all_children_used t] (no LEFT child below a prefix operator, group,
+   nested expression, reapply or prefix apply -- build() only looks at their right child).
+   Proof: induction over the compiler with the invariant that every owed node of a compiled
+   subtree is attributed already, or lies in a body on the pending list, or in an arm
+   registered with the conditional parent; every pending body is run (Ok means the fuel
+   sufficed), arms become pending bodies at the else-chain head. *)
+Theorem C04_every_node_attributed_all_trees : forall init lit t r,
+  ~ Known_C05_K2 t -> all_children_used t = true ->
+  compile init lit t = Ok r ->
+  forall i, In i (owed None t) -> In (Some i) (cm (fst r)).
+Proof.
+  intros init lit t r Hk Hu Hc. apply (compile_att init lit t r); auto.
+  destruct (drops_arms t) eqn:E; [exfalso; apply Hk; exact E | reflexivity].
+Qed.
+Print Assumptions C04_every_node_attributed_all_trees.
+
+(* ... in the vocabulary of Spec.TreeShape: for every node array that is a proper tree below
+   its root and whose parent links agree with its child links (what validate_tree checks):
+   every node of the tree that [exempt_from_attribution] does not exempt is attributed *)
+Theorem C04_every_node_attributed_nodes : forall nodes root t init lit r,
+  tree_of nodes root = Some t -> parents_agree nodes t ->
+  ~ Known_C05_K2 t -> all_children_used t = true ->
+  compile init lit t = Ok r ->
+  forall i n, In i (indices t) -> nth_error nodes i = Some n ->
+    exempt_from_attribution nodes n = false -> In (Some i) (cm (fst r)).
+Proof. exact compile_attributes_all_trees. Qed.
+Print Assumptions C04_every_node_attributed_nodes.
+
+(* ... on the worklist transliteration of build() (what is diffed against the Rust), by
+   compile_agrees_full *)
+Theorem C04_every_node_attributed_builder : forall nodes root t init lit fuel r,
+  tree_of nodes root = Some t -> parents_agree nodes t ->
+  ~ Known_C05_K2 t -> all_children_used t = true ->
+  build nodes init lit fuel root = Ok r ->
+  forall i n, In i (indices t) -> nth_error nodes i = Some n ->
+    exempt_from_attribution nodes n = false -> In (Some i) (meta (fst r)).
+Proof. exact build_attributes_all_trees. Qed.
+Print Assumptions C04_every_node_attributed_builder.
+
+(* the in-order walk of Spec.TreeShape visits exactly the nodes of the tree ([iot t]: the
+   in-order listing of the indices of [t], a permutation of [indices t]) *)
+Theorem C04_inorder_is_the_tree : forall ns root t,
+  tree_of ns root = Some t ->
+  inorder ns root = Some (iot t) /\ forall i, In i (iot t) <-> In i (indices t).
+Proof. intros ns root t H. split; [exact (inorder_of_tree ns root t H) | exact (iot_indices t)]. Qed.
+Print Assumptions C04_inorder_is_the_tree.
+
+(* ... hence the checker clause [covered_tree_b] itself (one metadata record per instruction,
+   every non-exempt node the walk reaches is attributed), for every such node array *)
+Theorem C04_covered_tree_builder : forall nodes root t init lit fuel r,
+  tree_of nodes root = Some t -> parents_agree nodes t ->
+  ~ Known_C05_K2 t -> all_children_used t = true ->
+  build nodes init lit fuel root = Ok r ->
+  covered_tree_b nodes root (fst r) = true.
+Proof. exact build_covered_tree. Qed.
+Print Assumptions C04_covered_tree_builder.
+
+(* the attribution clause for every token list, full statement *)
+Definition C04_attribution_full_statement : Prop :=
+  forall (toks : list token_type) root ns init lit fuel r,
+    parse toks = Ok (root, ns) -> ns <> [] ->
+    build ns init lit fuel root = Ok r -> covered_tree_b ns root (fst r) = true.
+
+(* PROVED PART, for EVERY token list the parser accepts (no bound on length), every initial
+   state, literal oracle and fuel: the accepted node array is a proper tree whose parent links
+   agree (validate_tree), and if that tree is outside C05-K2 and has no ignored child, a
+   successful build satisfies [covered_tree_b].  What is missing for the full statement is the
+   parser-side invariant that parse never links a tree in either excluded class (checked
+   exhaustively up to length 4 over the reduced alphabet below, and by the bounded theorems
+   C04_bounded_3 / C04_bounded_4_rep above). *)
+Theorem C04_attribution_parsed_partial : forall (toks : list token_type) root ns,
+  parse toks = Ok (root, ns) -> ns <> [] ->
+  exists t, tree_of ns root = Some t /\
+    forall init lit fuel r, ~ Known_C05_K2 t -> all_children_used t = true ->
+      build ns init lit fuel root = Ok r -> covered_tree_b ns root (fst r) = true.
+Proof. exact parsed_covered_tree. Qed.
+Print Assumptions C04_attribution_parsed_partial.
+
+(* every token list of length <= 4 over the reduced alphabet (18 token classes) that the
+   parser accepts is a proper tree in neither excluded class *)
+Theorem C04_parsed_tree_ok_reduced_4 : forall toks : list token_type, length toks <= 4 ->
+  (forall x, In x toks -> In x reduced_alphabet) -> parsed_tree_ok toks = true.
+Proof. exact parsed_tree_ok_reduced_4. Qed.
+Print Assumptions C04_parsed_tree_ok_reduced_4.
+
+(* both exclusions are necessary: on a C05-K2 tree (`1 ?> 2` linked directly as the left
+   operand of &&) the arm, node 3, gets no instruction; on a tree with a left child below a
+   prefix operator that child, node 1, gets none.  Neither array is a parse result. *)
+Theorem C04_attribution_K2_refuted :
+  exists t r,
+    tree_of k2_nodes' 0 = Some t /\ Known_C05_K2 t /\ all_children_used t = true /\
+    build k2_nodes' empty_init lit_all (build_fuel k2_nodes') 0 = Ok r /\
+    In 3 (indices t) /\ ~ In (Some 3) (meta (fst r)) /\
+    covered_tree_b k2_nodes' 0 (fst r) = false.
+Proof. exact attribution_K2_refuted. Qed.
+Print Assumptions C04_attribution_K2_refuted.
+
+Theorem C04_attribution_ignored_child_refuted :
+  exists t r,
+    tree_of ignored_nodes 0 = Some t /\ ~ Known_C05_K2 t /\ all_children_used t = false /\
+    build ignored_nodes empty_init lit_all (build_fuel ignored_nodes) 0 = Ok r /\
+    In 1 (indices t) /\ ~ In (Some 1) (meta (fst r)) /\
+    covered_tree_b ignored_nodes 0 (fst r) = false.
+Proof. exact attribution_ignored_child_refuted. Qed.
+Print Assumptions C04_attribution_ignored_child_refuted.
+
+(* non-vacuity: `1 ?> {a && 2} |> 3 !> (4 5) |> 6, 7 8 9` -- a conditional chain with two arms,
+   a nested expression containing &&, a group, a comma list and a space list nested in a
+   space list -- is accepted, meets every hypothesis of C04_attribution_parsed_partial, and of
+   its 21 nodes the 17 owed ones are attributed; the exempt ones are the two ElseJump nodes
+   (6, 13), the Group (9) and the inner List (17) *)
+Example C04_attribution_ex :
+  let toks := [TT_Number; TT_JumpIfTrue; TT_StartExpression; TT_Identifier; TT_And; TT_Number; TT_EndExpression;
+               TT_ElseJump; TT_Number; TT_JumpIfFalse; TT_StartGroup; TT_Number; TT_Whitespace; TT_Number; TT_EndGroup;
+               TT_ElseJump; TT_Number; TT_Comma; TT_Number; TT_Whitespace; TT_Number; TT_Whitespace; TT_Number] in
+  match parse toks with
+  | Ok (root, ns) =>
+    match tree_of ns root, build ns empty_init lit_all (build_fuel ns) root with
+    | Some t, Ok r =>
+      length ns = 21 /\ drops_arms t = false /\ all_children_used t = true /\
+      length (owed None t) = 17 /\
+      filter (fun i => match nth_error ns i with Some n => exempt_from_attribution ns n | None => false end) (iot t)
+        = [6; 9; 13; 17] /\
+      covered_tree_b ns root (fst r) = true
+    | _, _ => False
+    end
   | _ => False
   end.
 Proof. vm_compute. repeat split; reflexivity. Qed.
